@@ -242,6 +242,25 @@ pub fn vec_of(b: &[u8]) -> Vec<u8> {
     v
 }
 
+/// Same with a per-harness capacity `C` (the SAT encoding of every splice grows
+/// with the size of the heap object; `C` must cover the longest text the
+/// harness can produce, which the growth stubs assert).
+#[inline(always)]
+pub fn vec_cap<const C: usize>(b: &[u8]) -> Vec<u8> {
+    assert!(b.len() <= C);
+    let mut v: Vec<u8> = Vec::with_capacity(C);
+    unsafe {
+        let p = v.as_mut_ptr();
+        let mut i = 0;
+        while i < b.len() {
+            p.add(i).write(b[i]);
+            i += 1;
+        }
+        v.set_len(b.len());
+    }
+    v
+}
+
 /// `&str` view of bytes already known to be UTF-8 (the IRI table twins accept
 /// well-formed UTF-8 only).
 #[inline(always)]
